@@ -752,6 +752,7 @@ ASSUMED_LEXERS = {
     'C05': _PP_COMMON + _PP_MACRO + _PP_USAGE,
     'C06': _PP_COMMON + _PP_KEPT,
     'C10': _PP_COMMON + _PP_INC + _PP_USAGE[:1],
+    'C09': _PP_COMMON + _PP_INC + _PP_USAGE + _PP_MACRO,        # 'chains of legal depth yield the fully expanded text'
     'C11': _PP_COMMON + _PP_MACRO + ['undefine_compiler_directive', 'undefineall_compiler_directive'],
     'C18': _PP_COMMON + _PP_KEPT[:0] + ['macro_text', 'text_macro_definition'],
 }
@@ -1067,9 +1068,9 @@ def pp_total_run(fns, table, comb):
         failures.append(fl)
     # the dual obligation: the run of plain text STOPS in front of everything another alternative of source_description must see.
     # If it accepted the `/` of `//` or `/*`, a comment after plain text would become part of a NotDirective node and survive
-    # strip_comments (C18); a swallowed backtick hides a directive from every arm (C04, C05, C10, C11); a swallowed string or
+    # strip_comments (C18), and a directive name inside it would be taken for a directive (C04); a swallowed backtick hides a directive from every arm (C04, C05, C10, C11); a swallowed string or
     # escaped-identifier opener lets the text inside be read as comments or directives (C18, C06)
-    for b1, b2s, what, props in ((ord('/'), (ord('/'), ord('*')), 'the `/` that opens a comment', ['C18']),
+    for b1, b2s, what, props in ((ord('/'), (ord('/'), ord('*')), 'the `/` that opens a comment', ['C18', 'C04']),
                                  (ord('`'), [None] + list(range(256)), 'a backtick', ['C04', 'C05', 'C10', 'C11']),
                                  (ord('"'), [None] + list(range(256)), 'the quote that opens a string literal', ['C18', 'C06']),
                                  (ord('\\'), [None] + list(range(256)), 'the backslash that opens an escaped identifier', ['C18', 'C06'])):
